@@ -164,6 +164,19 @@ Proof.
   intros b Hb. apply H. right. exact Hb.
 Qed.
 
+(* draining CpuRegisters = reading every name of the initial state in order; no fuel runs out *)
+Lemma cpu_iter_collect_mapM : forall c rf st,
+  cpu_iter_collect (S (length st)) c rf st = mapM (named c rf) st.
+Proof.
+  intros c rf st. induction st as [|r t IH]; [reflexivity|].
+  cbn [length]. remember (S (length t)) as k. cbn [cpu_iter_collect cpu_iter_next mapM]. unfold named at 1.
+  destruct (get_always c rf r) as [x| |tg|]; try reflexivity.
+  cbn [obind]. subst k. rewrite IH. destruct (mapM (named c rf) t); reflexivity.
+Qed.
+Lemma cpu_valid_registers_mapM : forall c rf v,
+  cpu_valid_registers c rf v = mapM (named c rf) (match v with VAll => ct_registers c | VSome s => s end).
+Proof. intros c rf v. unfold cpu_valid_registers. apply cpu_iter_collect_mapM. Qed.
+
 Lemma filter_all : forall A (p : A -> bool) l, (forall x, In x l -> p x = true) -> filter p l = l.
 Proof.
   intros A p l. induction l as [|a l IH]; intro H; [reflexivity|].
@@ -519,6 +532,39 @@ Proof.
   intros rf n. unfold md_named, named. rewrite md_get_always_eq. destruct (get_always c rf n); reflexivity.
 Qed.
 
+(* CpuRegisters::next, step by step, on states of known names: yields the head with its location's
+   value and moves on; at the end it answers None and stays there *)
+Lemma cpu_iter_step : forall rf r t, memoize c r <> None ->
+  cpu_iter_next c rf (r :: t) = Ret (Some (r, rf_get rf (loc_of c r)), t).
+Proof.
+  intros rf r t H. cbn [cpu_iter_next]. destruct (memoize c r) as [k|] eqn:E; [|contradiction].
+  rewrite (get_always_accepted rf r (memoizable_accepted r k E)). reflexivity.
+Qed.
+
+(* write by name, read back through every MinidumpContext-level path *)
+Lemma md_roundtrip : forall n, In n (accepted c) -> forall rf v l, find_arm n (ct_set c) = Some l ->
+  set_reg c rf n v = Ret (Some (upd rf l v)) /\
+  md_get_always c (upd rf l v) n = Ret v /\
+  (forall s, md_get_register c (upd rf l v) n s = if is_valid c n s then Ret (Some v) else Ret None) /\
+  format_register c (upd rf l v) n = Ret (format_value c v) /\
+  (memoize c n = memoize c (ct_sp_name c) -> md_stack_pointer c (upd rf l v) = Ret v) /\
+  (memoize c n = memoize c (ct_ip_name c) -> md_instruction_pointer c (upd rf l v) = Ret v).
+Proof.
+  intros n Hn rf v l Hl. destruct (set_get n Hn rf v) as [l' [Hl' [Hok [S [G _]]]]].
+  rewrite Hl in Hl'. inversion Hl'; subst l'.
+  split; [exact S|]. split; [rewrite md_get_always_eq; exact G|].
+  split.
+  { intro s. rewrite md_get_register_eq. unfold get_register. rewrite G. reflexivity. }
+  split; [unfold format_register; rewrite G; reflexivity|].
+  split; intro E.
+  - unfold md_stack_pointer. rewrite (special_follows _ _ (f_sp c F) n l Hn Hl rf v), E.
+    assert (Y : forall o, opt_str_eqb o o = true) by (intro o; apply opt_str_eqb_spec; reflexivity).
+    rewrite Y. reflexivity.
+  - unfold md_instruction_pointer. rewrite (special_follows _ _ (f_ip c F) n l Hn Hl rf v), E.
+    assert (Y : forall o, opt_str_eqb o o = true) by (intro o; apply opt_str_eqb_spec; reflexivity).
+    rewrite Y. reflexivity.
+Qed.
+
 Definition listing (rf : regfile) (names : list name) : list (name * Z) :=
   map (fun n => (n, rf_get rf (loc_of c n))) names.
 
@@ -543,7 +589,7 @@ Proof.
     intros a _. apply (md_is_valid_eq _ (f_md_filter c F)). }
   split; [exact G|]. split; [exact M|].
   split.
-  { unfold cpu_valid_registers, listing. apply mapM_ret.
+  { rewrite cpu_valid_registers_mapM. unfold listing. apply mapM_ret.
     intros a Ha. apply named_known. rewrite (register_known a Ha). discriminate. }
   split.
   { rewrite V. unfold listing.
@@ -554,7 +600,7 @@ Proof.
   { intro s. rewrite V. unfold listing.
     rewrite (filter_map_fst (fun n => is_valid c n (VSome s)) (fun n => rf_get rf (loc_of c n))). reflexivity. }
   split.
-  { intros s Hs. unfold cpu_valid_registers, listing. apply mapM_ret.
+  { intros s Hs. rewrite cpu_valid_registers_mapM. unfold listing. apply mapM_ret.
     intros a Ha. apply named_known. exact (Hs a Ha). }
   intros r Hr. pose proof (f_regs c F r Hr) as R. unfold ok_register in R.
   apply andb_true_iff in R. destruct R as [R1 R2]. split; [apply Z.eqb_eq; exact R2 | apply opt_str_eqb_spec; exact R1].
